@@ -85,14 +85,15 @@ def k1_shapes(tier):
         if tier == 'quick':
             scheds = scheds if n == 2 else [s for s in scheds if 'h' in s][:3]
         elif li >= 3:
-            # thorough-only scenarios: two schedules each (the full product ran for more than an hour on 10 cores)
-            scheds = [scheds[(li * 2) % len(scheds)], scheds[(li * 2 + 4) % len(scheds)]]
+            # thorough-only scenarios: one or two schedules each (the full product ran for more than an hour on 10 cores,
+            # two each for more than 70 minutes on 7)
+            scheds = [scheds[(li * 2) % len(scheds)]] if li % 2 else [scheds[(li * 2) % len(scheds)], scheds[(li * 2 + 4) % len(scheds)]]
         for i, s in enumerate(scheds):
             out.append({'blocks': blocks, 'flush': list(s) + ['n'], 'depth': depth, 'new': new,
                         'reopen': i % 2 == 0, 'restart_before': i % 3 == 1})
     # the fork is exactly as deep as the reorg limit and every block was indexed while the daemon was already at
     # the tip (multi-block catch-up): the undo window must reach down to tip - limit + 1
-    for blocks, depth, new in (base if tier == 'thorough' else base[1:3]):
+    for blocks, depth, new in (base[:7] if tier == 'thorough' else base[1:3]):
         n = len(blocks)
         out.append({'blocks': blocks, 'flush': ['n'] * (n - 1) + ['n'], 'depth': depth, 'new': new, 'reopen': True,
                     'restart_before': depth == 1, 'reorg_limit': depth, 'daemon_height': n - 1})
